@@ -54,9 +54,6 @@ const (
 	c18ResMemberENI = "aliyun/member-eni"
 
 	c18KnownNoVSwitch = "C18-nondefault-iface-no-vswitch"
-	// two requested definitions without a common zone + fixed IP + a recorded previous
-	// zone: the only requirement emitted is "previous zone"
-	c18KnownDisjointPrevPin = "C18-disjoint-zones-prev-pin"
 )
 
 var c18LogOnce sync.Once
@@ -91,7 +88,9 @@ type c18InReq struct {
 
 // what the harness reads back from the admitted pod
 type c18OutAlloc struct {
-	Type string `json:"type"`
+	Type            string `json:"type"`
+	ReleaseStrategy string `json:"releaseStrategy"`
+	ReleaseAfter    string `json:"releaseAfter"`
 }
 type c18OutNet struct {
 	VSwitchOptions   []string     `json:"vSwitchOptions"`
@@ -425,6 +424,16 @@ type c18StoredPN struct {
 	vsw     []string
 	attach  string
 	hasSels bool
+	// allocation type of the definition as admitted
+	release      string
+	releaseAfter string
+}
+
+func (st c18StoredPN) alloc() c18OutAlloc {
+	if st.fixed {
+		return c18OutAlloc{Type: "Fixed", ReleaseStrategy: st.release, ReleaseAfter: st.releaseAfter}
+	}
+	return c18OutAlloc{Type: "Elastic"}
 }
 
 // ---------------------------------------------------------------- run
@@ -507,6 +516,9 @@ func c18Run(c *vt.Ctx, s c18Scenario) {
 		st := c18StoredPN{name: obj.Name, fixed: g.Fixed, podSel: g.PodSel, nsSel: g.NSSel,
 			vsw: obj.Spec.VSwitchOptions, attach: string(obj.Spec.ENIOptions.ENIAttachType),
 			hasSels: g.PodSel != nil || g.NSSel != nil}
+		if g.Fixed {
+			st.release, st.releaseAfter = g.Release, g.ReleaseAfter
+		}
 		switch g.Status {
 		case 0:
 			st.ready = true
@@ -616,20 +628,20 @@ func c18Run(c *vt.Ctx, s c18Scenario) {
 	// which source of networks is operative, decided with the harness's own decoding
 	malformed := false
 	explicitNets, explicitReqs := 0, 0
+	var inNets c18InAnno
+	var inReqs []c18InReq
 	if p.HasNets {
-		var in c18InAnno
-		if err := json.Unmarshal([]byte(pod.Annotations[c18AnnoNets]), &in); err != nil {
+		if err := json.Unmarshal([]byte(pod.Annotations[c18AnnoNets]), &inNets); err != nil {
 			malformed = true
 		} else {
-			explicitNets = len(in.PodNetworks)
+			explicitNets = len(inNets.PodNetworks)
 		}
 	}
 	if p.HasReq && !malformed && explicitNets == 0 {
-		var in []c18InReq
-		if err := json.Unmarshal([]byte(pod.Annotations[c18AnnoReq]), &in); err != nil {
+		if err := json.Unmarshal([]byte(pod.Annotations[c18AnnoReq]), &inReqs); err != nil {
 			malformed = true
 		} else {
-			explicitReqs = len(in)
+			explicitReqs = len(inReqs)
 		}
 	}
 
@@ -716,6 +728,59 @@ func c18Run(c *vt.Ctx, s c18Scenario) {
 		c.Label("path:default-network")
 	}
 
+	// the allocation type each network of the pod is defined with (nil = the source does
+	// not say): entry i of the emitted list stands for request i / input entry i / the
+	// bound definition
+	var wantAlloc []*c18OutAlloc
+	definedFixed := false
+	byName := map[string]c18StoredPN{}
+	for _, st := range stored {
+		byName[st.name] = st
+	}
+	switch {
+	case malformed:
+	case explicitNets > 0:
+		for _, e := range inNets.PodNetworks {
+			if e.AllocationType != nil && e.AllocationType.Type != "" {
+				wantAlloc = append(wantAlloc, &c18OutAlloc{Type: e.AllocationType.Type, ReleaseStrategy: e.AllocationType.ReleaseStrategy})
+				definedFixed = definedFixed || e.AllocationType.Type == "Fixed"
+			} else {
+				wantAlloc = append(wantAlloc, nil)
+			}
+		}
+	case explicitReqs > 0:
+		kinds := map[string]bool{}
+		for _, r := range inReqs {
+			if st, ok := byName[r.Network]; ok {
+				a := st.alloc()
+				wantAlloc = append(wantAlloc, &a)
+				definedFixed = definedFixed || st.fixed
+				kinds[a.Type] = true
+			} else {
+				wantAlloc = append(wantAlloc, nil)
+			}
+		}
+		if len(kinds) > 1 {
+			c.Label("request:mixed-allocation-types")
+		}
+	case zonesFromDefinitions && marked: // selector match
+		if st, ok := byName[final.Annotations[c18AnnoPN]]; ok {
+			a := st.alloc()
+			wantAlloc = append(wantAlloc, &a)
+		}
+	}
+
+	// sentence 3, judged on what the pod asks for: a pod without a stable name that
+	// names a fixed-IP network (in its pod-networks list or through a requested
+	// definition) is refused
+	if definedFixed && !stable {
+		c.Label("fixed-requested-by-unstable-pod")
+		if resp.Allowed {
+			c.Fatalf("pod without a stable name (owners %v) asks for a fixed-IP network and was admitted; emitted networks: %s",
+				p.Owners, final.Annotations[c18AnnoNets])
+		}
+	}
+
 	if !resp.Allowed {
 		if malformed {
 			c.Label("denied:malformed")
@@ -789,6 +854,23 @@ func c18Run(c *vt.Ctx, s c18Scenario) {
 	}
 	if n >= 2 {
 		c.Label("multi-network")
+	}
+	// "... and an allocation type": the one its network is defined with
+	if len(wantAlloc) == n {
+		for i, w := range wantAlloc {
+			if w == nil {
+				continue
+			}
+			got := out.PodNetworks[i].AllocationType
+			if got.Type != w.Type || got.ReleaseStrategy != w.ReleaseStrategy || (explicitNets == 0 && got.ReleaseAfter != w.ReleaseAfter) {
+				c.Fatalf("network %d (%s) is emitted with allocation type %+v, but the network it stands for is defined with %+v; emitted: %s",
+					i, out.PodNetworks[i].Interface, *got, *w, final.Annotations[c18AnnoNets])
+			}
+		}
+		c.Label("alloc-type:compared-with-source")
+	} else if len(wantAlloc) > 0 {
+		// entries cannot be paired with their sources; the statement does not fix the count
+		c.Label("alloc-type:count-differs-from-source")
 	}
 
 	// sentence 3: fixed IP only for pods with a stable name
@@ -873,14 +955,9 @@ func c18Run(c *vt.Ctx, s c18Scenario) {
 				az = append(az, k)
 			}
 			sort.Strings(az)
-			if len(allowedZones) == 0 && vt.Known(c18KnownDisjointPrevPin) &&
-				hasFixed && prevZone != "" && len(bad) == 1 && bad[0] == prevZone {
-				c.Label("known:" + c18KnownDisjointPrevPin)
-			} else {
-				aff, _ := json.Marshal(final.Spec.Affinity)
-				c.Fatalf("the emitted node affinity admits zones %v, but the zones in which every requested network has a vSwitch are %v (previous zone %q)\naffinity: %s\nnetworks: %s",
-					bad, az, prevZone, aff, final.Annotations[c18AnnoNets])
-			}
+			aff, _ := json.Marshal(final.Spec.Affinity)
+			c.Fatalf("the emitted node affinity admits zones %v, but the zones in which every requested network has a vSwitch are %v (previous zone %q)\naffinity: %s\nnetworks: %s",
+				bad, az, prevZone, aff, final.Annotations[c18AnnoNets])
 		}
 	}
 }
@@ -1038,73 +1115,6 @@ func TestVerifC18KnownWitnessNoVSwitch(t *testing.T) {
 	}()
 	if admittedIncomplete {
 		vt.KnownFindingLine("C18", "pod with a user-supplied network on a non-eth0 interface and no vSwitchOptions is marked pod-eni=true and admitted with that entry still lacking vSwitches (defaults are filled for eth0 only)")
-	}
-}
-
-// Deterministic witness for the open finding C18-disjoint-zones-prev-pin: a stable-name
-// pod requests two definitions by name, pn0 (Elastic, only vSwitch in z0) and pn1 (Fixed,
-// only vSwitch in z2), and a PodENI of an earlier incarnation records zone z0. No zone
-// has a vSwitch of both networks; the empty intersection is dropped as "no requirement"
-// and the only requirement emitted is "zone In [z0]", a zone in which pn1 has no vSwitch.
-func TestVerifC18KnownWitnessDisjointPrevPin(t *testing.T) {
-	if !vt.Known(c18KnownDisjointPrevPin) {
-		t.Skip("finding not listed as open")
-	}
-	pinned := false
-	func() {
-		defer func() { _ = recover() }()
-		c18LogOnce.Do(func() { ctrl.SetLogger(logr.Discard()) })
-		cfg := &controlplane.Config{EnableTrunk: ptr.To(false), EnableWebhookInjectResource: ptr.To(false)}
-		controlplane.SetConfig(cfg)
-		defer controlplane.SetConfig(nil)
-		mk := func(i int, zone int, fixed bool) *v1beta1.PodNetworking {
-			pn := c18BuildPN(i, c18PN{Fixed: fixed, VSw: []c18VSw{{Zone: zone}}, SGs: 1})
-			pn.Status.Status = v1beta1.NetworkingStatusReady
-			pn.Status.VSwitches = []v1beta1.VSwitch{{ID: c18VSw{Zone: zone}.id(), Zone: fmt.Sprintf("z%d", zone)}}
-			return pn
-		}
-		s := c18Scenario{
-			Namespaces: []c18NS{{}},
-			PNs:        []c18PN{{}, {}},
-			Pod: c18Pod{Name: "web-0", Containers: []c18Container{{}}, HasReq: true,
-				Reqs: []c18Req{{PN: 0, Iface: "eth1"}, {PN: 1, Iface: "eth0"}}},
-		}
-		pod := c18BuildPod(s)
-		cl := fake.NewClientBuilder().WithScheme(types.Scheme).WithObjects(
-			c18EniConfigMap(c18EniConf{VSw: []c18VSw{{Zone: 0}}, SGs: 1}),
-			&corev1.Namespace{ObjectMeta: metav1.ObjectMeta{Name: "ns0"}},
-			mk(0, 0, false), mk(1, 2, true),
-			&v1beta1.PodENI{ObjectMeta: metav1.ObjectMeta{Namespace: "ns0", Name: "web-0"},
-				Spec: v1beta1.PodENISpec{Zone: "z0", Allocations: []v1beta1.Allocation{{IPv4: "10.0.0.10", Interface: "eth0"}}}},
-		).Build()
-		raw, _ := json.Marshal(pod)
-		resp := MutatingHook(cl, cfg).Handle(context.Background(), c18Request("Pod", pod.Namespace, pod.Name, raw))
-		if !resp.Allowed || len(resp.Patch) == 0 {
-			return
-		}
-		pt, err := evpatch.DecodePatch(resp.Patch)
-		if err != nil {
-			return
-		}
-		outRaw, err := pt.Apply(raw)
-		if err != nil {
-			return
-		}
-		final := &corev1.Pod{}
-		if json.Unmarshal(outRaw, final) != nil || final.Annotations[c18AnnoPodENI] != "true" {
-			return
-		}
-		if len(c18AddedZoneValues(pod, final)) == 0 {
-			return
-		}
-		for _, z := range c18AdmittedZones(final) {
-			if z == "z0" {
-				pinned = true // pn1 has no vSwitch in z0
-			}
-		}
-	}()
-	if pinned {
-		vt.KnownFindingLine("C18", "pod requesting two PodNetworkings without a common vSwitch zone (one of them Fixed) whose earlier PodENI records a zone is admitted with the single node-affinity requirement 'zone In [previous zone]', a zone in which one of the requested networks has no vSwitch (an empty zone intersection is treated as no requirement)")
 	}
 }
 
